@@ -39,6 +39,12 @@ func sentinelsIn(err error) []*sim.SentinelError {
 	return out
 }
 
+// errnoPick draws what an injected failure wraps: nothing, or an errno a real socket call fails with
+// (the permission class among them: errors.Is(err, os.ErrPermission) holds for EPERM and EACCES).
+func errnoPick(rng *rand.Rand) string {
+	return pick(rng, "", "", "EPERM", "EACCES", "ENOBUFS", "EINVAL", "ENETDOWN", "EHOSTUNREACH", "EMSGSIZE", "ErrPermission")
+}
+
 func exposes(err error, f sim.FiredFault) bool {
 	for _, s := range sentinelsIn(err) {
 		if s.Actor == f.Actor && s.Op == f.Op && s.K == f.K {
@@ -178,6 +184,12 @@ func (c10) Gen(rng0 *rand.Rand, tier string, i int) *sim.Scenario {
 	}
 	sc := scenarioFor("C10", rng, []*wireRun{wr})
 	sc.Faults = c10Fault(slot, rand.New(rand.NewPCG(uint64(i), 5)), wr.call.TimeoutMs)
+	ern := errnoPick(rand.New(rand.NewPCG(uint64(i), 6)))
+	for k := range sc.Faults {
+		if sc.Faults[k].Class == "fatal" || sc.Faults[k].Class == "slowfatal" {
+			sc.Faults[k].Errno = ern
+		}
+	}
 	sc.Note = fmt.Sprintf("base=%d slot=%d", base, slot)
 	return sc
 }
@@ -392,6 +404,7 @@ func (c15) Gen(rng *rand.Rand, tier string, i int) *sim.Scenario {
 					// fails after a while: the other runs and probes finish before, around or after it
 					ft.Class, ft.Us = "slowfatal", int64(between(rng, 100, c.TimeoutMs*700))
 				}
+				ft.Errno = errnoPick(rng)
 				sc.Faults = append(sc.Faults, ft)
 			}
 		}
@@ -400,6 +413,12 @@ func (c15) Gen(rng *rand.Rand, tier string, i int) *sim.Scenario {
 			for k := range sc.Faults {
 				sc.Faults[k].Anon = true
 			}
+		}
+		if chance(rng, 0.15) {
+			// ... and the caller gives up as well: the genuine failures must not disappear behind the
+			// context's error
+			span := int64(c.TimeoutMs)*1000 + int64(c.E2E)*300000
+			c.CancelAtUs = int64(between(rng, 1, int(span)))
 		}
 	} else if chance(rng, 0.2) {
 		// the caller gives up at a seeded instant (before the start, between the launches of the
@@ -468,7 +487,10 @@ func (c15) Check(out *sim.Outcome, ri *RunInfo) []Violation {
 			fatal = append(fatal, f)
 		}
 	}
-	if c.CancelAtUs > 0 {
+	if c.CancelAtUs > 0 && len(fatal) > 0 {
+		ri.probe("request-cancelled-with-failures")
+	}
+	if c.CancelAtUs > 0 && len(fatal) == 0 {
 		// a cancelled request: it may fail, or it may carry on and deliver everything; what it must not
 		// do is return a document with fewer runs or samples than requested as a success
 		ri.probe("request-cancelled")
@@ -660,7 +682,7 @@ func (c20) Gen(rng *rand.Rand, tier string, i int) *sim.Scenario {
 		}
 	}
 	add := func(op string, k int) {
-		sc.Faults = append(sc.Faults, sim.Fault{Actor: "run#1", Op: op, K: k, Class: "fatal"})
+		sc.Faults = append(sc.Faults, sim.Fault{Actor: "run#1", Op: op, K: k, Class: "fatal", Errno: errnoPick(rng)})
 	}
 	switch fault {
 	case "filter1":
